@@ -1,4 +1,4 @@
 #!/bin/sh
 # development helper: run the parser unit
 OBS="binlogEvent_Format,binlogEvent_Rotate,binlogEvent_Query,binlogEvent_TableMap,binlogEvent_Rows,binlogEvent_TableID,GetStatementCategory,appendInsertEventFromRows,appendUpdateEventFromRows,appendDeleteEventFromRows,newError,Error_msgf,Streamer_binlogPosition,StatementType_String,NewMysqlTableName"
-exec timeout 900 /verif/bin/govc -pkg . -func Streamer.parseEvents -ifacetag replication.BinlogEvent=replication.mysql56BinlogEvent -observer $OBS "$@"
+exec timeout 900 ${GOVC:-/verif/bin/govc} -pkg . -func Streamer.parseEvents -ifacetag replication.BinlogEvent=replication.mysql56BinlogEvent -observer $OBS "$@"
